@@ -4,13 +4,14 @@
 #include "driver.h"
 #include "world.h"
 #include "peek.h"
+#include "keys.h"
 #include <map>
 
 enum { SC_LOAD_RSA = 0, SC_LOAD_EC_ALL, SC_NEW_SESSIONS, SC_TLS12_RSA, SC_TLS12_ECDSA_CAUTH, SC_TLS11_ECDHE_RSA, SC_TLS12_RESUME_ID, SC_TLS12_RESUME_TICKET,
-       SC_TLS13_FULL, SC_TLS13_PSK_RESUME, SC_TLS13_CAUTH, SC_DTLS12_FRAG, SC_TLS12_PSK, SC_DATA_GROWTH, SC_TLS12_TICKET_REISSUE, SC_TLS13_HRR_SNI, SC_TLS12_EXT_LIST, SC_TLS13_EXT_LIST,
+       SC_TLS13_FULL, SC_TLS13_PSK_RESUME, SC_TLS13_CAUTH, SC_DTLS12_FRAG, SC_TLS12_PSK, SC_DATA_GROWTH, SC_TLS12_TICKET_REISSUE, SC_TLS13_HRR_SNI, SC_TLS12_EXT_LIST, SC_TLS13_EXT_LIST, SC_OCSP_REFRESH,
        SC_NEG_UNKNOWN_CA_12, SC_NEG_UNKNOWN_CA_13, SC_NEG_BAD_SIG_12, SC_NEG_BAD_SIG_13, SC_NEG_FORGED_CERT_12, SC_NEG_FORGED_CERT_13, SC_NEG_FORGED_CERT_RSA_12, SC_N };
 static const char *SC_NAME[] = { "load_rsa", "load_ec_all", "new_sessions", "tls12_rsa", "tls12_ecdsa_cauth", "tls11_ecdhe_rsa", "tls12_resume_id", "tls12_resume_ticket",
-                                 "tls13_full", "tls13_psk_resume", "tls13_cauth", "dtls12_frag", "tls12_psk", "data_growth", "tls12_ticket_reissue", "tls13_hrr_sni", "tls12_ext_list", "tls13_ext_list",
+                                 "tls13_full", "tls13_psk_resume", "tls13_cauth", "dtls12_frag", "tls12_psk", "data_growth", "tls12_ticket_reissue", "tls13_hrr_sni", "tls12_ext_list", "tls13_ext_list", "ocsp_refresh",
                                  "neg_unknown_ca_12", "neg_unknown_ca_13", "neg_bad_sig_12", "neg_bad_sig_13", "neg_forged_cert_12", "neg_forged_cert_13", "neg_forged_cert_rsa_12" };
 static bool sc_negative(int s) { return s >= SC_NEG_UNKNOWN_CA_12; }
 
@@ -81,6 +82,40 @@ static ScOutcome run_scenario(const Plan &p, bool count_only) {
         disarm_fault();
         if (k) { matrixSslDeleteKeys(k); }
         o.fp.add((uint64_t) (int64_t) rc);
+        return o;
+    }
+    if (s == SC_OCSP_REFRESH) {
+        // a server refreshes the stapled OCSP response on its live key set (periodic job); the refresh may fail, the application retries, later deletes the keys
+        KeySpec ks; ks.identity = KK_EC256; ks.ca_mask = 1u << KK_EC256; ks.ocsp = 1;
+        int rc = 0; vsim_set_node(NODE_SERVER);
+        sslKeys_t *k = load_keys(ks, &rc);
+        if (!k) { o.first_error = rc; return o; }
+        if (!count_only) { arm_fault(p); } else { vsim_alloc_arm(); vsim_entropy_arm(); }
+        const unsigned char *ob = nullptr; size_t on = 0; vsim_ocsp_blob(1, &ob, &on);
+        int rc1 = matrixSslLoadOCSPResponse(k, ob, (psSize_t) on);
+        int rc2 = matrixSslLoadOCSPResponse(k, ob, (psSize_t) on);
+        vsim_ocsp_blob(0, &ob, &on);
+        int rc3 = matrixSslLoadOCSPResponse(k, ob, (psSize_t) on);
+        o.first_error = rc1 < 0 ? rc1 : rc2 < 0 ? rc2 : rc3; o.completed = rc1 >= 0 && rc2 >= 0 && rc3 >= 0;
+        o.allocs = vsim_alloc_count(); o.draws = vsim_entropy_draws();
+        disarm_fault();
+        {
+            // whatever the refreshes left behind is then used: a client asks for the stapled response
+            PairCfg pc; pc.version = v_tls_1_2; pc.suites = { TLS_ECDHE_ECDSA_WITH_AES_128_GCM_SHA256 }; pc.server_identity = KK_EC256; pc.ocsp = 1;
+            KeySpec cks; cks.identity = KK_NONE; cks.ca_mask = (1u << KK_EC256) | (1u << KK_EC384);
+            vsim_set_node(NODE_CLIENT); sslKeys_t *ck = load_keys(cks);
+            vsim_set_node(NODE_HARNESS); sslSessionId_t *sid = nullptr; matrixSslNewSessionId(&sid, nullptr);
+            if (ck && sid) {
+                TlsWorld w; w.adopt(k, ck, sid, pc);
+                if (w.connect()) { w.handshake(); o.fp.add(w.cli->is_complete()); o.fp.add(w.srv->is_complete()); }
+                w.close_sessions(); w.teardown();
+            }
+            vsim_set_node(NODE_HARNESS); if (sid) { matrixSslDeleteSessionId(sid); }
+            vsim_set_node(NODE_CLIENT); if (ck) { matrixSslDeleteKeys(ck); }
+            vsim_set_node(NODE_SERVER);
+        }
+        matrixSslDeleteKeys(k);
+        o.fp.add((uint64_t) (int64_t) rc1); o.fp.add((uint64_t) (int64_t) rc2); o.fp.add((uint64_t) (int64_t) rc3);
         return o;
     }
     PairCfg pc = sc_cfg(s);
